@@ -171,3 +171,14 @@ def run_jobs(exe, jobs, timeout=900, env=None):
     recs, dumps, meta = parse_output(out)
     meta['timeout'] = to
     return rc, recs, dumps, meta, err.decode('latin-1', 'replace')
+
+
+def build_tu(src, flavour, extra=(), name='tu'):
+    """build a generated TU; if it fails because private names behind the friend hook changed (diagnostics point into the
+    harness' access struct), degrade to public-API observations (-DVF_NO_ACCESS). Returns (exe, hook_available)."""
+    try:
+        return common.build(src, flavour, extra=list(extra), name=name), True
+    except common.BuildError as e:
+        if 'vf_harness.hpp' in e.diag or 'vf_driver.hpp' in e.diag or 'verif::access' in e.diag:
+            return common.build(src, flavour, extra=list(extra) + ['-DVF_NO_ACCESS'], name=name), False
+        raise
